@@ -24,13 +24,13 @@ theorem cad_items {reg tcxo : Bool} {x : Items} (b : (bringUp reg tcxo).le x) (g
   simp_all
 
 section
-variable {kind : Kind} {reg tcxo : Bool} {Rdy : ChipTrack → Prop} {σ μ : Type} {rk : RadioKindOps σ μ}
-variable (S : OpsSpec kind reg tcxo Rdy rk)
+variable {kind : Kind} {reg tcxo : Bool} {sb : Items} {Rdy : ChipTrack → Prop} {σ μ : Type} {rk : RadioKindOps σ μ}
+variable (S : OpsSpec kind reg tcxo sb Rdy rk)
 include S
 
-theorem sleep_inv (warm : Bool) {d : DriverState σ} {t : ChipTrack} (h : Inv reg tcxo d t) :
+theorem sleep_inv (warm : Bool) {d : DriverState σ} {t : ChipTrack} (h : Inv reg tcxo sb d t) :
     mwp kind (needsFor reg tcxo) (sleep rk warm)
-      (fun _ d' t' => Inv reg tcxo d' t') (fun a d' t' => Inv reg tcxo d' t' ∧ a.infra) d t := by
+      (fun _ d' t' => Inv reg tcxo sb d' t') (fun a d' t' => Inv reg tcxo sb d' t' ∧ a.infra) d t := by
   unfold sleep
   refine mwp_bind (mwp_get ?_)
   by_cases hm : d.radioMode = .sleep
@@ -51,20 +51,20 @@ theorem sleep_inv (warm : Bool) {d : DriverState σ} {t : ChipTrack} (h : Inv re
       refine mwp_bind (mwp_modify ?_)
       exact mwp_setMode ⟨h2.1, Link.sleep _, fun hc => by simp at hc, trivial⟩
 
-theorem setLoraSyncWord_inv (w : Nat) {d : DriverState σ} {t : ChipTrack} (h : Inv reg tcxo d t) :
+theorem setLoraSyncWord_inv (w : Nat) {d : DriverState σ} {t : ChipTrack} (h : Inv reg tcxo sb d t) :
     mwp kind (needsFor reg tcxo) (setLoraSyncWord rk w)
-      (fun _ d' t' => Inv reg tcxo d' t') (fun a d' t' => Inv reg tcxo d' t' ∧ a.infra) d t := by
+      (fun _ d' t' => Inv reg tcxo sb d' t') (fun a d' t' => Inv reg tcxo sb d' t' ∧ a.infra) d t := by
   unfold setLoraSyncWord
   refine mwp_bind (mwp_mono (toStandby_inv S h) (fun _ d1 t1 h1 => ?_) (fun a d' t' he => he))
-  obtain ⟨hd1, e1, a1⟩ := h1
-  have i1 : Inv reg tcxo d1 t1 := hd1 ▸ h.standby e1 a1
+  obtain ⟨hd1, e1, a1, s1⟩ := h1
+  have i1 : Inv reg tcxo sb d1 t1 := hd1 ▸ h.standby e1 a1 s1
   refine mwp_bind (mwp_cfg (S.setLoraSyncWord _) e1.clean a1 (fun _ t2 e2 _ => ?_) (fun a t' e' ha' => ⟨i1.ext e', ha'⟩))
   exact mwp_modify ((i1.ext e2).congr rfl rfl)
 
 theorem prepareForTx_inv (m : μ) (pkt : PacketParams) (power : Int) (payload : Bytes)
-    {d : DriverState σ} {t : ChipTrack} (h : Inv reg tcxo d t) :
+    {d : DriverState σ} {t : ChipTrack} (h : Inv reg tcxo sb d t) :
     mwp kind (needsFor reg tcxo) (prepareForTx rk m pkt power payload)
-      (fun _ d' t' => Inv reg tcxo d' t' ∧ d'.radioMode = .transmit) (fun a d' t' => Inv reg tcxo d' t' ∧ a.infra) d t := by
+      (fun _ d' t' => Inv reg tcxo sb d' t' ∧ d'.radioMode = .transmit) (fun a d' t' => Inv reg tcxo sb d' t' ∧ a.infra) d t := by
   unfold prepareForTx
   refine mwp_bind (mwp_mono (prepareModem_inv S _ h) (fun _ d1 t1 h1 => ?_) (fun a d' t' he => he))
   obtain ⟨i1, a1, m1, c1⟩ := h1
@@ -75,8 +75,8 @@ theorem prepareForTx_inv (m : μ) (pkt : PacketParams) (power : Int) (payload : 
   have e13 := e2.trans e3
   have i3 := i1.ext e13
   refine mwp_bind (mwp_mono (toStandby_inv S i3) (fun _ d4 t4 h4 => ?_) (fun a d' t' he => he))
-  obtain ⟨hd4, e4, a4⟩ := h4
-  have i4 : Inv reg tcxo d4 t4 := hd4 ▸ i3.standby e4 a4
+  obtain ⟨hd4, e4, a4, s4⟩ := h4
+  have i4 : Inv reg tcxo sb d4 t4 := hd4 ▸ i3.standby e4 a4 s4
   have c4 : d4.coldStart = false := by rw [hd4]; exact c1
   clear hd4
   by_cases hp : payload.length > 255
@@ -93,13 +93,13 @@ theorem prepareForTx_inv (m : μ) (pkt : PacketParams) (power : Int) (payload : 
     refine mwp_bind (mwp_setMode ?_)
     have it : (needsFor reg tcxo).tx.le t7.items :=
       tx_items (e47.le (i4.cold c4)) (((e3.trans e4).trans e47).le g2) ((e6.trans e7).le g5) (e7.le g6)
-    have i7 : Inv reg tcxo { d4 with radioMode := .transmit } t7 :=
+    have i7 : Inv reg tcxo sb { d4 with radioMode := .transmit } t7 :=
       ⟨e7.clean, Link.of_aw (e47.aw a4), fun hc => e47.le (i4.cold hc), it⟩
     exact mwp_cfg (S.setIrqParams _) e7.clean (e47.aw a4) (fun _ t8 e8 _ => ⟨i7.ext e8, rfl⟩)
       (fun a t' e' ha' => ⟨i7.ext e', ha'⟩)
 
-theorem txLoop_inv (fuel : Nat) {d : DriverState σ} {t : ChipTrack} (h : Inv reg tcxo d t) (hm : d.radioMode = .transmit) :
-    mwp kind (needsFor reg tcxo) (txLoop rk fuel) (fun _ d' t' => Inv reg tcxo d' t') (AbI4 reg tcxo False) d t := by
+theorem txLoop_inv (fuel : Nat) {d : DriverState σ} {t : ChipTrack} (h : Inv reg tcxo sb d t) (hm : d.radioMode = .transmit) :
+    mwp kind (needsFor reg tcxo) (txLoop rk fuel) (fun _ d' t' => Inv reg tcxo sb d' t') (AbI4 reg tcxo sb False) d t := by
   have aw : Aw t := h.aw (by simp [hm]) (by simp [hm, RadioMode.isDuty])
   induction fuel with
   | zero => exact mwp_panic (AbI4.of_infra h rfl)
@@ -113,15 +113,15 @@ theorem txLoop_inv (fuel : Nat) {d : DriverState σ} {t : ChipTrack} (h : Inv re
       obtain ⟨st, c⟩ := r
       cases st with
       | none => exact ih
-      | some s => exact mwp_setMode (h.standby (Ext.refl h.clean) aw)
+      | some s => exact mwp_setMode (h.standby (Ext.refl h.clean) aw (h.items.sb_le S.sb_le (by simp [hm])))
     · subst ht
       cases a with
       | err e => exact failToStandby_inv S e h _
       | panic => exact AbI4.of_infra h rfl
       | dropped => exact AbI4.of_infra h rfl
 
-theorem tx_inv (fuel : Nat) {d : DriverState σ} {t : ChipTrack} (h : Inv reg tcxo d t) :
-    mwp kind (needsFor reg tcxo) (tx rk fuel) (fun _ d' t' => Inv reg tcxo d' t') (AbI4 reg tcxo False) d t := by
+theorem tx_inv (fuel : Nat) {d : DriverState σ} {t : ChipTrack} (h : Inv reg tcxo sb d t) :
+    mwp kind (needsFor reg tcxo) (tx rk fuel) (fun _ d' t' => Inv reg tcxo sb d' t') (AbI4 reg tcxo sb False) d t := by
   unfold tx
   refine mwp_bind (mwp_get ?_)
   by_cases hm : d.radioMode = .transmit
@@ -135,9 +135,9 @@ theorem tx_inv (fuel : Nat) {d : DriverState σ} {t : ChipTrack} (h : Inv reg tc
     exact mwp_throw (AbI4.of_infra h rfl)
 
 theorem prepareForRx_inv (mode : RxMode) (m : μ) (pkt : PacketParams)
-    {d : DriverState σ} {t : ChipTrack} (h : Inv reg tcxo d t) :
+    {d : DriverState σ} {t : ChipTrack} (h : Inv reg tcxo sb d t) :
     mwp kind (needsFor reg tcxo) (prepareForRx rk mode m pkt)
-      (fun _ d' t' => Inv reg tcxo d' t' ∧ d'.radioMode = .receive mode) (fun a d' t' => Inv reg tcxo d' t' ∧ a.infra) d t := by
+      (fun _ d' t' => Inv reg tcxo sb d' t' ∧ d'.radioMode = .receive mode) (fun a d' t' => Inv reg tcxo sb d' t' ∧ a.infra) d t := by
   unfold prepareForRx
   refine mwp_bind (mwp_mono (prepareModem_inv S _ h) (fun _ d1 t1 h1 => ?_) (fun a d' t' he => he))
   obtain ⟨i1, a1, m1, c1⟩ := h1
@@ -151,14 +151,14 @@ theorem prepareForRx_inv (mode : RxMode) (m : μ) (pkt : PacketParams)
   have e14 := e13.trans e4
   refine mwp_bind (mwp_setMode ?_)
   have it : (needsFor reg tcxo).rx.le t4.items := rx_items (e14.le (i1.cold c1)) ((e3.trans e4).le g2) g4
-  have i4 : Inv reg tcxo { d1 with radioMode := .receive mode } t4 :=
+  have i4 : Inv reg tcxo sb { d1 with radioMode := .receive mode } t4 :=
     ⟨e4.clean, Link.of_aw (e14.aw a1), fun hc => e14.le (i1.cold hc), it⟩
   exact mwp_cfg (S.setIrqParams _) e4.clean (e14.aw a1) (fun _ t5 e5 _ => ⟨i4.ext e5, rfl⟩)
     (fun a t' e' ha' => ⟨i4.ext e', ha'⟩)
 
-theorem prepareForCad_inv (m : μ) {d : DriverState σ} {t : ChipTrack} (h : Inv reg tcxo d t) :
+theorem prepareForCad_inv (m : μ) {d : DriverState σ} {t : ChipTrack} (h : Inv reg tcxo sb d t) :
     mwp kind (needsFor reg tcxo) (prepareForCad rk m)
-      (fun _ d' t' => Inv reg tcxo d' t') (fun a d' t' => Inv reg tcxo d' t' ∧ a.infra) d t := by
+      (fun _ d' t' => Inv reg tcxo sb d' t') (fun a d' t' => Inv reg tcxo sb d' t' ∧ a.infra) d t := by
   unfold prepareForCad
   refine mwp_bind (mwp_mono (prepareModem_inv S _ h) (fun _ d1 t1 h1 => ?_) (fun a d' t' he => he))
   obtain ⟨i1, a1, m1, c1⟩ := h1
@@ -169,20 +169,20 @@ theorem prepareForCad_inv (m : μ) {d : DriverState σ} {t : ChipTrack} (h : Inv
   have e13 := e2.trans e3
   refine mwp_bind (mwp_setMode ?_)
   have it : (needsFor reg tcxo).cad.le t3.items := cad_items (e13.le (i1.cold c1)) (e3.le g2) g3
-  have i3 : Inv reg tcxo { d1 with radioMode := .cad } t3 :=
+  have i3 : Inv reg tcxo sb { d1 with radioMode := .cad } t3 :=
     ⟨e3.clean, Link.of_aw (e13.aw a1), fun hc => e13.le (i1.cold hc), it⟩
   exact mwp_cfg (S.setIrqParams _) e3.clean (e13.aw a1) (fun _ t4 e4 _ => i3.ext e4)
     (fun a t' e' ha' => ⟨i3.ext e', ha'⟩)
 
 omit S in
 /-- the state after `do_rx`: `radio_mode` is `Receive(mode)` and the chip may be duty-cycling -/
-theorem Inv.afterRx {d : DriverState σ} {t t' : ChipTrack} {mode : RxMode} (h : Inv reg tcxo d t) (hm : d.radioMode = .receive mode)
-    (hc : Clean t') (hi : t.items.le t'.items) (hl : Link (.receive mode) t') : Inv reg tcxo d t' :=
+theorem Inv.afterRx {d : DriverState σ} {t t' : ChipTrack} {mode : RxMode} (h : Inv reg tcxo sb d t) (hm : d.radioMode = .receive mode)
+    (hc : Clean t') (hi : t.items.le t'.items) (hl : Link (.receive mode) t') : Inv reg tcxo sb d t' :=
   ⟨hc, hm ▸ hl, fun hx => Items.le_trans (h.cold hx) hi, h.items.mono hi⟩
 
-theorem startRx_inv {d : DriverState σ} {t : ChipTrack} (h : Inv reg tcxo d t) :
+theorem startRx_inv {d : DriverState σ} {t : ChipTrack} (h : Inv reg tcxo sb d t) :
     mwp kind (needsFor reg tcxo) (startRx rk)
-      (fun _ d' t' => Inv reg tcxo d' t' ∧ d' = d) (fun a d' t' => Inv reg tcxo d' t' ∧ a.infra) d t := by
+      (fun _ d' t' => Inv reg tcxo sb d' t' ∧ d' = d) (fun a d' t' => Inv reg tcxo sb d' t' ∧ a.infra) d t := by
   unfold startRx
   refine mwp_bind (mwp_get ?_)
   cases hm : d.radioMode with
@@ -197,9 +197,9 @@ theorem startRx_inv {d : DriverState σ} {t : ChipTrack} (h : Inv reg tcxo d t) 
     exact ⟨i1.afterRx hm h2.1 h2.2.1 h2.2.2, rfl⟩
   | _ => exact mwp_throw ⟨h, rfl⟩
 
-theorem rxSwitchChannel_inv (freq : Nat) {d : DriverState σ} {t : ChipTrack} (h : Inv reg tcxo d t) :
+theorem rxSwitchChannel_inv (freq : Nat) {d : DriverState σ} {t : ChipTrack} (h : Inv reg tcxo sb d t) :
     mwp kind (needsFor reg tcxo) (rxSwitchChannel rk freq)
-      (fun _ d' t' => Inv reg tcxo d' t') (fun a d' t' => Inv reg tcxo d' t' ∧ a.infra) d t := by
+      (fun _ d' t' => Inv reg tcxo sb d' t') (fun a d' t' => Inv reg tcxo sb d' t' ∧ a.infra) d t := by
   unfold rxSwitchChannel
   refine mwp_bind (mwp_get ?_)
   cases hm : d.radioMode with
@@ -222,9 +222,9 @@ theorem rxSwitchChannel_inv (freq : Nat) {d : DriverState σ} {t : ChipTrack} (h
   | _ => exact mwp_throw ⟨h, rfl⟩
 
 theorem completeRxLoop_inv (pkt : PacketParams) (buf : Bytes) (fuel : Nat) {d : DriverState σ} {t : ChipTrack}
-    (h : Inv reg tcxo d t) {mode : RxMode} (hm : d.radioMode = .receive mode) :
-    mwp kind (needsFor reg tcxo) (completeRxLoop rk pkt buf fuel) (fun _ d' t' => Inv reg tcxo d' t')
-      (AbI4 reg tcxo (d.radioMode = .receive .continuous)) d t := by
+    (h : Inv reg tcxo sb d t) {mode : RxMode} (hm : d.radioMode = .receive mode) :
+    mwp kind (needsFor reg tcxo) (completeRxLoop rk pkt buf fuel) (fun _ d' t' => Inv reg tcxo sb d' t')
+      (AbI4 reg tcxo sb (d.radioMode = .receive .continuous)) d t := by
   have ns : t.mode ≠ .sleep := fun hs => by have := h.link.1 hs; simp [hm] at this
   have nd : t.mode = .rxDuty → d.radioMode.isSingle = false := fun hs => by
     rcases h.link.2 hs with h1 | h1
@@ -239,8 +239,8 @@ theorem completeRxLoop_inv (pkt : PacketParams) (buf : Bytes) (fuel : Nat) {d : 
       (S.processIrqEvent d.radioMode none true t h.clean ns nd) (fun r t' ht => ?_) (fun a t' ht => ?_))))
     · subst ht
       have waitAgain : mwp kind (needsFor reg tcxo)
-          (do M.call rk.awaitIrq; completeRxLoop rk pkt buf f) (fun _ d' t' => Inv reg tcxo d' t')
-          (AbI4 reg tcxo (d.radioMode = .receive .continuous)) d t' :=
+          (do M.call rk.awaitIrq; completeRxLoop rk pkt buf f) (fun _ d' t' => Inv reg tcxo sb d' t')
+          (AbI4 reg tcxo sb (d.radioMode = .receive .continuous)) d t' :=
         mwp_bind (mwp_ro (S.awaitIrq t') (fun _ => ih) (fun a ha => AbI4.of_infra h ha))
       obtain ⟨st, c⟩ := r
       cases st with
@@ -265,9 +265,9 @@ theorem completeRxLoop_inv (pkt : PacketParams) (buf : Bytes) (fuel : Nat) {d : 
       | dropped => exact AbI4.of_infra h rfl
 
 theorem completeRx_inv (pkt : PacketParams) (buf : Bytes) (fuel : Nat) {d : DriverState σ} {t : ChipTrack}
-    (h : Inv reg tcxo d t) :
-    mwp kind (needsFor reg tcxo) (completeRx rk pkt buf fuel) (fun _ d' t' => Inv reg tcxo d' t')
-      (AbI4 reg tcxo (d.radioMode = .receive .continuous)) d t := by
+    (h : Inv reg tcxo sb d t) :
+    mwp kind (needsFor reg tcxo) (completeRx rk pkt buf fuel) (fun _ d' t' => Inv reg tcxo sb d' t')
+      (AbI4 reg tcxo sb (d.radioMode = .receive .continuous)) d t := by
   unfold completeRx
   refine mwp_bind (mwp_get ?_)
   cases hm : d.radioMode with
@@ -275,18 +275,18 @@ theorem completeRx_inv (pkt : PacketParams) (buf : Bytes) (fuel : Nat) {d : Driv
   | _ => exact mwp_throw (AbI4.of_infra h rfl)
 
 theorem rx_inv (pkt : PacketParams) (buf : Bytes) (fuel : Nat) {d : DriverState σ} {t : ChipTrack}
-    (h : Inv reg tcxo d t) :
-    mwp kind (needsFor reg tcxo) (rx rk pkt buf fuel) (fun _ d' t' => Inv reg tcxo d' t')
-      (AbI4 reg tcxo (d.radioMode = .receive .continuous)) d t := by
+    (h : Inv reg tcxo sb d t) :
+    mwp kind (needsFor reg tcxo) (rx rk pkt buf fuel) (fun _ d' t' => Inv reg tcxo sb d' t')
+      (AbI4 reg tcxo sb (d.radioMode = .receive .continuous)) d t := by
   unfold rx
   refine mwp_bind (mwp_mono (startRx_inv S h) (fun _ d1 t1 h1 => ?_) (fun a d' t' he => AbI4.of_infra he.1 he.2))
   obtain ⟨i1, rfl⟩ := h1
   exact completeRx_inv S pkt buf fuel i1
 
 theorem listen_inv (freq : Nat) (m : Except RadioError μ) (hwf : ∀ e, m = .error e → Abort.infra (.err e))
-    {d : DriverState σ} {t : ChipTrack} (h : Inv reg tcxo d t) :
+    {d : DriverState σ} {t : ChipTrack} (h : Inv reg tcxo sb d t) :
     mwp kind (needsFor reg tcxo) (listen rk freq m)
-      (fun _ d' t' => Inv reg tcxo d' t') (fun a d' t' => Inv reg tcxo d' t' ∧ a.infra) d t := by
+      (fun _ d' t' => Inv reg tcxo sb d' t') (fun a d' t' => Inv reg tcxo sb d' t' ∧ a.infra) d t := by
   unfold listen
   refine mwp_bind (mwp_mono (prepareModem_inv S _ h) (fun _ d1 t1 h1 => ?_) (fun a d' t' he => he))
   obtain ⟨i1, a1, m1, c1⟩ := h1
@@ -303,16 +303,17 @@ theorem listen_inv (freq : Nat) (m : Except RadioError μ) (hwf : ∀ e, m = .er
     refine mwp_bind (mwp_setMode ?_)
     have it : (needsFor reg tcxo).rx.le t3.items := rx_items (e13.le (i1.cold c1)) g3 (e3.le g2)
     have post : ∀ t', Clean t' → t3.items.le t'.items → Link (.receive .continuous) t' →
-        Inv reg tcxo { d1 with radioMode := .listen } t' := fun t' hc hi hl =>
+        Inv reg tcxo sb { d1 with radioMode := .listen } t' := fun t' hc hi hl =>
       ⟨hc, ⟨fun hs => by have := hl.1 hs; simp at this, fun hs => by
           rcases hl.2 hs with h1 | h1 <;> simp [RadioMode.isDuty, RxMode.isDuty] at h1⟩,
-        fun hx => Items.le_trans (e13.le (i1.cold hx)) hi, trivial⟩
+        fun hx => Items.le_trans (e13.le (i1.cold hx)) hi,
+        Items.le_trans (e13.le (i1.items.sb_le S.sb_le (by simp [m1]))) hi⟩
     refine mwp_call (wp_mono _ _ _ (S.doRx .continuous t3 e3.clean (S.rdy_of_aw _ a3) (Link.of_aw a3) it) (fun _ t4 h4 => ?_)
       (fun a t' h' => ⟨post t' h'.1.1 h'.1.2.1 h'.1.2.2, h'.2⟩))
     exact post t4 h4.1 h4.2.1 h4.2.2
 
-theorem cad_inv (m : μ) {d : DriverState σ} {t : ChipTrack} (h : Inv reg tcxo d t) :
-    mwp kind (needsFor reg tcxo) (cad rk m) (fun _ d' t' => Inv reg tcxo d' t') (AbI4 reg tcxo False) d t := by
+theorem cad_inv (m : μ) {d : DriverState σ} {t : ChipTrack} (h : Inv reg tcxo sb d t) :
+    mwp kind (needsFor reg tcxo) (cad rk m) (fun _ d' t' => Inv reg tcxo sb d' t') (AbI4 reg tcxo sb False) d t := by
   unfold cad
   refine mwp_bind (mwp_get ?_)
   by_cases hm : d.radioMode = .cad
@@ -337,7 +338,7 @@ theorem cad_inv (m : μ) {d : DriverState σ} {t : ChipTrack} (h : Inv reg tcxo 
           refine mwp_bind (mwp_call (wp_mono _ _ _ (S.setStandby t' e1.clean (S.rdy_of_aw _ a1)) (fun _ t2 h2 => ?_)
             (fun a t'' h' => AbI4.of_infra (i1.ext h'.1) h'.2)))
           refine mwp_bind (mwp_setMode ?_)
-          exact mwp_pure (i1.standby h2.1 h2.2.1)
+          exact mwp_pure (i1.standby h2.1 h2.2.1 h2.2.2.2)
     · subst ht
       cases a with
       | err e => exact failToStandby_inv S e i1 _
